@@ -165,3 +165,91 @@ def adversarial_case(r_, curve, pklen, siglen, hvlen, it):
 
 def expected(inp, curve):
     return verify(curve, inp["pk"], inp["sig"], inp["hv"])
+
+
+# ---------------------------------------------------------------------------
+# signing side (C08_sign): deterministic nonces exactly as the library documents them
+
+def _bits2int_mod(curve, hv):
+    """h = big-endian first 32 bytes of hv (shorter values are left-padded, i.e. taken as they are) mod n"""
+    return int.from_bytes(bytes(hv)[:32], "big") % CURVES[curve]["n"]
+
+
+def rfc6979_nonces(n, x, h, extra=b""):
+    """RFC 6979 section 3.2 with HMAC-SHA-256 for a 256-bit order n; x = private key, h = bits2int(hash) mod n
+    (so that bits2octets = int2octets(h)); `extra` is the additional input k' of section 3.6 (appended in
+    steps d and f).  Yields the successive candidates T (as integers, *not* range-checked)."""
+    import hmac, hashlib
+
+    def mac(k, m):
+        return hmac.new(k, m, hashlib.sha256).digest()
+    xb, hb = x.to_bytes(32, "big"), h.to_bytes(32, "big")
+    V, K = b"\x01" * 32, b"\x00" * 32
+    K = mac(K, V + b"\x00" + xb + hb + bytes(extra))
+    V = mac(K, V)
+    K = mac(K, V + b"\x01" + xb + hb + bytes(extra))
+    V = mac(K, V)
+    while True:
+        V = mac(K, V)
+        yield int.from_bytes(V, "big")
+        K = mac(K, V + b"\x00")
+        V = mac(K, V)
+
+
+def secp256k1_nonce(x, h, extra=b""):
+    """crrl's documented secp256k1 rule: SHA-512(LE32(x) || LE32(h) || extra) as a little-endian integer mod n, 0 -> 1"""
+    import hashlib
+    n = CURVES["secp256k1"]["n"]
+    k = int.from_bytes(hashlib.sha512(x.to_bytes(32, "little") + h.to_bytes(32, "little") + bytes(extra)).digest(), "little") % n
+    return k or 1
+
+
+def _try_sign(curve, x, h, k):
+    c = CURVES[curve]
+    n = c["n"]
+    R = mul(c, k, (c["gx"], c["gy"]))
+    r = R[0] % n
+    s = pow(k, -1, n) * (h + x * r) % n
+    return r, s
+
+
+def sign_hash(curve, x, hv, extra=b""):
+    """the 64-byte signature be(r) || be(s) that `PrivateKey::sign_hash(hv, extra)` must return for the key x (1 <= x < n)"""
+    n = CURVES[curve]["n"]
+    h = _bits2int_mod(curve, hv)
+    if curve == "p256":
+        for k in rfc6979_nonces(n, x, h, extra):
+            if not 1 <= k < n:
+                continue
+            r, s = _try_sign(curve, x, h, k)
+            if r and s:
+                break
+    else:
+        k = secp256k1_nonce(x, h, extra)
+        while True:
+            r, s = _try_sign(curve, x, h, k)
+            if r and s:
+                break
+            k = (k + 1) % n or 1
+    return r.to_bytes(32, "big") + s.to_bytes(32, "big")
+
+
+def sign_cases(r_, curve, hvlen, erlen, count=14):
+    """(x, hv, extra) triples stressing bits2octets: hashes whose first 32 bytes are >= n (FF..FF, n, n+1), n-1, 0, random"""
+    n = CURVES[curve]["n"]
+    heads = [b"\xff" * 32, n.to_bytes(32, "big"), (n + 1).to_bytes(32, "big"), (n - 1).to_bytes(32, "big"), bytes(32),
+             (2**256 - 2).to_bytes(32, "big")]
+    out = []
+    for it in range(count):
+        x = r_.randrange(1, n) if it % 5 else (1 if it == 0 else n - 1)
+        hv = bytes(r_.getrandbits(8) for _ in range(hvlen))
+        if it < len(heads):
+            hv = (heads[it] + hv[32:]) if hvlen >= 32 else heads[it][:hvlen]
+        out.append((x, hv, bytes(r_.getrandbits(8) for _ in range(erlen))))
+    return out
+
+
+def mont_limbs(curve, x):
+    """the library's in-memory scalar (Montgomery representation, four 64-bit limbs)"""
+    v = (x << 256) % CURVES[curve]["n"]
+    return [(v >> (64 * i)) & 0xFFFFFFFFFFFFFFFF for i in range(4)]
